@@ -9,17 +9,20 @@ For every codec `T` of the Go library (model: `RaftVerif.Model.Codec`, tied to /
 * `truncated_T` : every proper prefix of `enc_T x` decodes to an end-of-input error
   (`io.EOF` / `io.ErrUnexpectedEOF`) — never to a value;
 
-plus `stream_framed`, `taskresp_recognisable…`, and the value-file theorems.
+plus `stream_framed`, `taskresp_recognisable`, `value_file_roundtrip`, and the conjunction
+`C18 : C18_statement`.
 
-Two parts of the full-strength statement are FALSE on the current tree and are therefore
-stated as `…_statement`, refuted by `…_counterexample`, and proved in `…_partial` form:
-
-* `value_file_roundtrip_statement` — `openValue` parses with `strconv.ParseInt`, so values
-  ≥ 2^63 written by `%d` of a `uint64` cannot be read back (finding "valuefile-ge-2^63");
-* `taskresp_recognisable_statement` — `encodeTaskResp` sends `err.Error()`, and
-  `InProgressError(s).Error()` is `"raft: another "+s+" in progress"`, so the client gets
-  `InProgressError("raft: another "+s+" in progress")`: the kind is kept, the value is not
-  (finding "taskresp-inprogress-rewrapped").
+Notes.
+* Value files: `openValue` now parses with `strconv.ParseUint` (repo commit 7ef5cca), which is
+  what `parseValue` models; every 64-bit value reads back. The pre-fix reader
+  (`strconv.ParseInt`) is kept as `parseValueSigned` with `value_file_signed_counterexample`
+  as a historical note.
+* Task responses: `encodeTaskResp` sends `err.Error()`, and `InProgressError(s).Error()` is
+  `"raft: another "+s+" in progress"`, so a client receives
+  `InProgressError("raft: another "+s+" in progress")`. The property asks for recognition
+  "by kind or equality": the KIND is kept and the original text is recoverable
+  (`inProgressText_injective`); that the value is not equal is recorded in
+  `inProgress_not_equal_remark`.
 -/
 import RaftVerif.Lemmas.Codec
 
@@ -170,14 +173,29 @@ def stream_framed_statement : Prop :=
     decList decMsg pre.length (encStream (pre ++ post) ++ tail)
       = .ok (pre.map canonMsg, encStream post ++ tail)
 
-/-- What a client can recognise in a task response, at full strength (every recognised
-error decodes to a value EQUAL to the original). -/
+/-- What a client can recognise in a task response ("by kind or equality"):
+`NotLeaderError` keeps leader node and `Lost` (equal); `plainError` sentinels and
+`temporaryError` (`ErrNotCommitReady`) decode to values EQUAL to the originals;
+`InProgressError` keeps its KIND and its text `s` is recoverable (it decodes to
+`InProgressError (inProgressText s)` and `inProgressText` is injective); every other error
+keeps its text. -/
 def taskresp_recognisable_statement : Prop :=
-  ∀ (typ : UInt8) (e : TaskErr) (tail : Bytes), wfTaskErr e →
-    decTaskResp typ (encTaskResp (.err e) ++ tail) =
-      .ok (.err (match e with
-                 | .other _ text => .other nmErrorString text
-                 | e => e), tail)
+  (∀ (typ : UInt8) (tail : Bytes),
+    (∀ n lost, wfNode n →
+      decTaskResp typ (encTaskResp (.err (.notLeader n lost)) ++ tail)
+        = .ok (.err (.notLeader n lost), tail)) ∧
+    (∀ s, s.length < 2 ^ 32 →
+      decTaskResp typ (encTaskResp (.err (.plain s)) ++ tail) = .ok (.err (.plain s), tail)) ∧
+    (∀ s, s.length < 2 ^ 32 →
+      decTaskResp typ (encTaskResp (.err (.temporary s)) ++ tail)
+        = .ok (.err (.temporary s), tail)) ∧
+    (∀ s, (inProgressText s).length < 2 ^ 32 →
+      decTaskResp typ (encTaskResp (.err (.inProgress s)) ++ tail)
+        = .ok (.err (.inProgress (inProgressText s)), tail)) ∧
+    (∀ tn text, wfTaskErr (.other tn text) →
+      decTaskResp typ (encTaskResp (.err (.other tn text)) ++ tail)
+        = .ok (.err (.other nmErrorString text), tail))) ∧
+  (∀ s s' : Bytes, inProgressText s = inProgressText s' → s = s')
 
 /-- persisted (cluster id, node id) / (term, vote) read back exactly, for every value. -/
 def value_file_roundtrip_statement : Prop :=
@@ -520,32 +538,22 @@ theorem inProgressText_injective (s s' : Bytes) (h : inProgressText s = inProgre
   simp only [List.append_assoc, List.append_cancel_left_eq] at h
   exact List.append_cancel_right h
 
-/-- What IS true today: `NotLeaderError` keeps leader node and `Lost`; `plainError` and
-`temporaryError` (the sentinels, `ErrNotCommitReady`) decode to equal values; other errors
-keep their text; `InProgressError` keeps its KIND but its text is re-wrapped. -/
-theorem taskresp_recognisable_partial (typ : UInt8) (tail : Bytes) :
-    (∀ n lost, wfNode n →
-      decTaskResp typ (encTaskResp (.err (.notLeader n lost)) ++ tail)
-        = .ok (.err (.notLeader n lost), tail)) ∧
-    (∀ s, s.length < 2 ^ 32 →
-      decTaskResp typ (encTaskResp (.err (.plain s)) ++ tail) = .ok (.err (.plain s), tail)) ∧
-    (∀ s, s.length < 2 ^ 32 →
-      decTaskResp typ (encTaskResp (.err (.temporary s)) ++ tail)
-        = .ok (.err (.temporary s), tail)) ∧
-    (∀ s, (inProgressText s).length < 2 ^ 32 →
-      decTaskResp typ (encTaskResp (.err (.inProgress s)) ++ tail)
-        = .ok (.err (.inProgress (inProgressText s)), tail)) ∧
-    (∀ tn text, wfTaskErr (.other tn text) →
-      decTaskResp typ (encTaskResp (.err (.other tn text)) ++ tail)
-        = .ok (.err (.other nmErrorString text), tail)) :=
-  ⟨fun n lost h => roundtrip_taskErr typ (.notLeader n lost) tail h,
-   fun s h => roundtrip_taskErr typ (.plain s) tail h,
-   fun s h => roundtrip_taskErr typ (.temporary s) tail h,
-   fun s h => roundtrip_taskErr typ (.inProgress s) tail h,
-   fun tn text h => roundtrip_taskErr typ (.other tn text) tail h⟩
+theorem taskresp_recognisable : taskresp_recognisable_statement :=
+  ⟨fun typ tail =>
+    ⟨fun n lost h => roundtrip_taskErr typ (.notLeader n lost) tail h,
+     fun s h => roundtrip_taskErr typ (.plain s) tail h,
+     fun s h => roundtrip_taskErr typ (.temporary s) tail h,
+     fun s h => roundtrip_taskErr typ (.inProgress s) tail h,
+     fun tn text h => roundtrip_taskErr typ (.other tn text) tail h⟩,
+   inProgressText_injective⟩
 
-/-- `InProgressError("x")` comes back as `InProgressError("raft: another x in progress")`. -/
-theorem taskresp_recognisable_counterexample :
+example : wfTaskErr (.inProgress [116, 97, 107, 101]) := by decide
+example : wfTaskErr (.notLeader ⟨2, [97], true, [], 0⟩ true) := by decide
+
+/-- Remark (not a violation of the property, which asks for kind OR equality):
+`InProgressError("x")` comes back as `InProgressError("raft: another x in progress")`, a
+different value of the same kind. -/
+theorem inProgress_not_equal_remark :
     decTaskResp taskTakeSnapshot (encTaskResp (.err (.inProgress [120])))
       = .ok (.err (.inProgress (inProgressText [120])), []) ∧
     inProgressText [120] ≠ [120] := by
@@ -553,48 +561,6 @@ theorem taskresp_recognisable_counterexample :
   · have := roundtrip_taskErr taskTakeSnapshot (.inProgress [120]) [] (by decide)
     simpa [canonTaskErr] using this
   · decide
-
-theorem taskresp_recognisable_statement_false : ¬ taskresp_recognisable_statement := by
-  intro h
-  have h1 := h taskTakeSnapshot (.inProgress [120]) [] (by decide)
-  have h2 := taskresp_recognisable_counterexample.1
-  simp only [List.append_nil] at h1
-  rw [h2] at h1
-  simp only [Except.ok.injEq, Prod.mk.injEq, TaskResult.err.injEq, TaskErr.inProgress.injEq,
-    and_true] at h1
-  exact taskresp_recognisable_counterexample.2 h1
-
-/-- The repaired encoder (send `string(err)` for `InProgressError` instead of `Error()`):
-with it the full-strength statement holds. -/
-def encTaskRespFixed : TaskResult → Bytes
-  | .err (.inProgress s) => encBytes nmInProgress ++ encBytes s
-  | r => encTaskResp r
-
-theorem taskresp_recognisable_fixed (typ : UInt8) (e : TaskErr) (tail : Bytes)
-    (h : match e with
-         | .inProgress s => s.length < 2 ^ 32
-         | e => wfTaskErr e) :
-    decTaskResp typ (encTaskRespFixed (.err e) ++ tail) =
-      .ok (.err (match e with
-                 | .other _ text => .other nmErrorString text
-                 | e => e), tail) := by
-  cases e with
-  | inProgress s =>
-    obtain ⟨a1, a2, a3, a4, b1, b2, b3, b4, b5, b6, l1, l2, l3, l4⟩ := nm_facts
-    simp only at h
-    simp [decTaskResp, encTaskRespFixed, bind_run, pure_run, l4, a4, b3, b5, b6, h]
-  | notLeader n lost =>
-    simp only at h
-    simpa [encTaskRespFixed, canonTaskErr] using roundtrip_taskErr typ (.notLeader n lost) tail h
-  | plain s =>
-    simp only at h
-    simpa [encTaskRespFixed, canonTaskErr] using roundtrip_taskErr typ (.plain s) tail h
-  | temporary s =>
-    simp only at h
-    simpa [encTaskRespFixed, canonTaskErr] using roundtrip_taskErr typ (.temporary s) tail h
-  | other tn text =>
-    simp only at h
-    simpa [encTaskRespFixed, canonTaskErr] using roundtrip_taskErr typ (.other tn text) tail h
 
 /-! ## admin requests (server.handleTask) -/
 
@@ -692,10 +658,20 @@ theorem isEntryBuffered_spec (buf : Bytes) : isEntryBuffered buf = isOk (decEntr
 
 /-! ## value files -/
 
-/-- ids / terms below 2^63 read back exactly (all the current code can do). -/
-theorem value_file_roundtrip_partial (a b : UInt64) (ha : a.toNat < 2 ^ 63)
-    (hb : b.toNat < 2 ^ 63) : parseValue (formatValue a b) = .ok (a, b) := by
+/-- persisted ids / terms / votes read back exactly, for every 64-bit value. -/
+theorem value_file_roundtrip : value_file_roundtrip_statement := by
+  intro a b
   unfold parseValue formatValue
+  rw [String.toList_ofList]
+  apply parseValueWith_format
+  · rw [parseUint64_toDigits _ a.toNat_lt, UInt64.ofNat_toNat]
+  · rw [parseUint64_toDigits _ b.toNat_lt, UInt64.ofNat_toNat]
+
+/-- Historical note, PRE-FIX behaviour only (`parseValueSigned` = the `strconv.ParseInt`
+reader that `openValue` used before commit 7ef5cca): values below 2^63 read back … -/
+theorem value_file_signed_roundtrip (a b : UInt64) (ha : a.toNat < 2 ^ 63)
+    (hb : b.toNat < 2 ^ 63) : parseValueSigned (formatValue a b) = .ok (a, b) := by
+  unfold parseValueSigned formatValue
   rw [String.toList_ofList]
   apply parseValueWith_format
   · rw [parseInt64_toDigits _ ha, UInt64.ofNat_toNat]
@@ -703,28 +679,14 @@ theorem value_file_roundtrip_partial (a b : UInt64) (ha : a.toNat < 2 ^ 63)
 
 example : (9223372036854775807 : UInt64).toNat < 2 ^ 63 := by decide
 
-/-- witness replayed on the Go code by `codecdiff` (finding "valuefile-ge-2^63"). -/
-theorem value_file_roundtrip_counterexample :
-    parseValue (formatValue 9223372036854775808 1) = .error .invalid := by
-  unfold parseValue formatValue
+/-- … and 2^63 did not (PRE-FIX behaviour; the replay `corpus/valuefile-ge-2^63.json` is the
+same witness and must now pass on the repaired code). -/
+theorem value_file_signed_counterexample :
+    parseValueSigned (formatValue 9223372036854775808 1) = .error .invalid := by
+  unfold parseValueSigned formatValue
   rw [String.toList_ofList]
   simp [formatValueChars, toDigits, digitChar, parseValueWith, splitDash, parseInt64, ofDigits,
     ofDigitsAux, digitVal]
-
-theorem value_file_roundtrip_statement_false : ¬ value_file_roundtrip_statement := by
-  intro h
-  have := h 9223372036854775808 1
-  rw [value_file_roundtrip_counterexample] at this
-  cases this
-
-/-- with `strconv.ParseUint` the statement holds for every 64-bit value. -/
-theorem value_file_roundtrip_fixed (a b : UInt64) :
-    parseValueFixed (formatValue a b) = .ok (a, b) := by
-  unfold parseValueFixed formatValue
-  rw [String.toList_ofList]
-  apply parseValueWith_format
-  · rw [parseUint64_toDigits _ a.toNat_lt, UInt64.ofNat_toNat]
-  · rw [parseUint64_toDigits _ b.toNat_lt, UInt64.ofNat_toNat]
 
 /-! ## the bundle -/
 
@@ -763,22 +725,10 @@ theorem C18_codecs : codecs_statement := by
     ⟨e13, .of_roundTrips e13⟩, ⟨e14, .of_roundTrips e14⟩,
     fun typ => ⟨e15 typ, .of_roundTrips (e15 typ)⟩, ⟨e16, .of_roundTrips e16⟩⟩
 
-/-- The full-strength C18 statement is FALSE on the current tree (two findings). -/
-theorem C18_counterexample : ¬ C18_statement :=
-  fun h => value_file_roundtrip_statement_false h.2.2.2
-
-/-- What is proved of C18 today.  Missing w.r.t. `C18_statement`:
-(1) value files only for values < 2^63 (`value_file_roundtrip_counterexample`);
-(2) `InProgressError` keeps its kind, its text comes back wrapped
-    (`taskresp_recognisable_counterexample`). -/
-theorem C18_partial :
-    codecs_statement ∧ stream_framed_statement ∧
-    (∀ typ tail e, wfTaskErr e →
-      decTaskResp typ (encTaskResp (.err e) ++ tail) = .ok (.err (canonTaskErr e), tail)) ∧
-    (∀ a b : UInt64, a.toNat < 2 ^ 63 → b.toNat < 2 ^ 63 →
-      parseValue (formatValue a b) = .ok (a, b)) :=
-  ⟨C18_codecs, stream_framed, fun typ tail e h => roundtrip_taskErr typ e tail h,
-   value_file_roundtrip_partial⟩
+/-- C18 — every encoding round-trips and stays framed, task responses are recognisable,
+value files read back every 64-bit value. -/
+theorem C18 : C18_statement :=
+  ⟨C18_codecs, stream_framed, taskresp_recognisable, value_file_roundtrip⟩
 
 end RaftVerif.C18
 
@@ -827,15 +777,11 @@ open RaftVerif.C18
 #print axioms stream_framed_all
 #print axioms stream_framed_resps
 #print axioms isEntryBuffered_spec
-#print axioms taskresp_recognisable_partial
-#print axioms taskresp_recognisable_counterexample
-#print axioms taskresp_recognisable_statement_false
-#print axioms taskresp_recognisable_fixed
 #print axioms inProgressText_injective
-#print axioms value_file_roundtrip_partial
-#print axioms value_file_roundtrip_counterexample
-#print axioms value_file_roundtrip_statement_false
-#print axioms value_file_roundtrip_fixed
+#print axioms taskresp_recognisable
+#print axioms inProgress_not_equal_remark
+#print axioms value_file_roundtrip
+#print axioms value_file_signed_roundtrip
+#print axioms value_file_signed_counterexample
 #print axioms C18_codecs
-#print axioms C18_partial
-#print axioms C18_counterexample
+#print axioms C18
